@@ -147,7 +147,8 @@ def check(an, rep, tier):
                 okn = False
                 break
     rep.add('P-normalise', 'optima.optima_tt_beam', 'norms = sum((Q / '
-            'max|Q|)**2)', 'ok' if okn else 'violation',
+            'max|Q|)**2)', 'ok' if okn else ('violation' if n_sq
+                                              else 'unknown'),
             '' if okn else 'the squared candidate norms are no longer taken '
             'of Q scaled by its largest modulus: the squares under- / '
             'overflow for representable tensors and all candidates tie',
